@@ -210,7 +210,15 @@ class Table:
             return self.values().sym_getattr(ev, "shape", node, mod)
         if name in ("copy", "astype", "sort_index", "rename_axis"):
             return BoundLib("tbl.same", self)
+        if name == "set_axis":
+            return BoundLib("tbl.table.set_axis", self)
         raise ev.err(f"table attribute {name}", node, mod)
+
+    def with_axis(self, ev, which, v, node=None, mod=None):
+        """the table with its `which` ('index' / 'columns') labels replaced (a new table, as DataFrame.set_axis returns)"""
+        t = Table(self.var, self.index, self.columns, dict(self.parsed))
+        t.sym_setattr(ev, which, v, node, mod)
+        return t
 
     def sym_setattr(self, ev, name, v, node, mod):
         if name in ("columns", "index"):
@@ -332,10 +340,18 @@ def intrinsics(out=None):
     def table_transpose(ev, a, k):
         return a[0].sym_getattr(ev, "T", None, None)
 
+    def table_set_axis(ev, a, k):
+        axis = k.get("axis", a[2] if len(a) > 2 else 0)
+        which = {"0": "index", "index": "index", "rows": "index", "1": "columns", "columns": "columns"}.get(str(axis))
+        if which is None or k.get("inplace"):
+            raise AnalysisError("DataFrame.set_axis with this axis / inplace is not modelled")
+        k.get("copy")
+        return a[0].with_axis(ev, which, a[1] if len(a) > 1 else k.get("labels"))
+
     return {
         "tbl.same": same, "tbl.axis.values": axis_values, "tbl.axis.same": same, "tbl.axis.astype": axis_astype, "tbl.axis.map": axis_map,
         "tbl.series.values": lambda ev, a, k: a[0].line, "tbl.series.same": same, "tbl.table.values": lambda ev, a, k: (k.all(), a[0].values())[1],
-        "tbl.grid.transpose": grid_transpose, "tbl.table.transpose": table_transpose,
+        "tbl.grid.transpose": grid_transpose, "tbl.table.transpose": table_transpose, "tbl.table.set_axis": table_set_axis,
         "numpy.take": take, "numpy.argmin": argmin, "ndarray.argmin": argmin, "numpy.nanargmin": argmin,
         "numpy.abs": absf, "numpy.absolute": absf, "numpy.fabs": absf, "builtins.abs": absf,
         "pandas.Series": series, "pandas.DataFrame": dataframe, "outtable.to_string": to_string,
